@@ -23,7 +23,14 @@ its token list (`List ω`), an entry is what `Joiner` builds from a window of to
   *relative* window in exact arithmetic (the very formula `absBoundsWith` the driver runs on `Float32`);
 * `check_params_guard` states the guard of `check_ref` (the hypotheses `1 ≤ nmin ≤ nmax`, `0 ≤ lo ≤ hi ≤ 1`);
 * `transform_string_*` : the two tokenisation switches act independently, NFKD before lower-casing;
-* `sparse_*`, `nnz_counts_nonzero` : the CSR row stores exactly the non-zero counts in column order.
+* `sparse_*`, `nnz_counts_nonzero` : the CSR row stores exactly the non-zero counts in column order;
+* round 3 — theorems about the functions the driver answers through: `window_is_relative_exact`,
+  `vocab_from_tokens`, `count_from_tokens` (end to end from the tokens, `fitDocs` / `transformDocs` with the
+  exact-rational window), `fit_files_eq_fit` / `fit_files_refused` / `transform_files_eq_transform` (the
+  separate loops of the `*_files` entry points), `check_ref_uses_last_tokenizer` (the compiled-regex cache
+  of the parameter object), `check_params_guard_any` (the guard for any scalar, NaN included),
+  `tstring_table` (the `tstring` instance), `cap_sure` (what a cap surely keeps / drops), `idf_*` (the
+  documented idf over the reals).
 -/
 namespace LinfaSpec.Props.C17
 open LinfaSpec.Vectorizer
